@@ -289,6 +289,29 @@ macro_rules! extra_ops {
         $out.ev(format_args!("{} decode32(encode32(x)) -> {:#x} {}", $name, st2, hex(&w.encode())));
         v
     }};
+    (@inplace $T:ty, $name:expr, $a:expr, $t:expr, $rng:expr, $out:expr) => {{
+        // the in-place variants are public API of their own (the by-value forms are not always wrappers of them)
+        $out.probe("probe.apitrace.in_place_variants");
+        let mut r = $a;
+        match $t.usize(4) {
+            0 => r.set_neg(),
+            1 => r.set_square(),
+            2 => {
+                let l = if $t.chance(3, 4) { <$T>::ENC_LEN } else { len_biased($t, <$T>::ENC_LEN) };
+                let bb = bytes_biased($t, $rng, l);
+                let st = r.set_decode_ct(&bb);
+                status!($out, concat!($name, ".set_decode_ct"), st);
+                $out.ev(format_args!("{} set_decode_ct({}) -> {:#x}", $name, hex(&bb), st));
+            }
+            _ => {
+                let l = len_biased($t, <$T>::ENC_LEN);
+                let bb = bytes_biased($t, $rng, l);
+                r.set_decode_reduce(&bb);
+                $out.ev(format_args!("{} set_decode_reduce({}B)", $name, bb.len()));
+            }
+        }
+        r
+    }};
     (@w64be4 $T:ty, $name:expr, $t:expr, $rng:expr, $out:expr) => {{
         let (w3, w2, w1, w0) = (word($t, $rng), word($t, $rng), word($t, $rng), word($t, $rng));
         let v = <$T>::from_w64be(w3, w2, w1, w0);
@@ -309,10 +332,23 @@ macro_rules! extra_ops {
         v
     }};
     (gf255, $T:ty, $name:expr, $a:expr, $b:expr, $regs:expr, $t:expr, $rng:expr, $out:expr) => {{
-        match $t.usize(8) {
+        match $t.usize(10) {
             0 => extra_ops!(@sqrt_ext $T, $name, $a, $out),
             1 => extra_ops!(@enc32 $T, $name, $a, $t, $rng, $out),
             2 => extra_ops!(@w64be4 $T, $name, $t, $rng, $out),
+            8 => extra_ops!(@inplace $T, $name, $a, $t, $rng, $out),
+            9 => {
+                let mut r = $a;
+                match $t.usize(6) {
+                    0 => r.set_mul2(),
+                    1 => r.set_mul4(),
+                    2 => r.set_mul8(),
+                    3 => r.set_mul16(),
+                    4 => r.set_mul32(),
+                    _ => r.set_mul_small(word($t, $rng) as u32),
+                }
+                r
+            }
             5..=7 => {
                 // "not reduced" intermediates: only what the documentation allows is done with them
                 // (operand of a multiplication, square, xsquare); the reduced results are transcript material
@@ -362,23 +398,46 @@ macro_rules! extra_ops {
         }
     }};
     (gf448, $T:ty, $name:expr, $a:expr, $b:expr, $regs:expr, $t:expr, $rng:expr, $out:expr) => {{
-        match $t.usize(2) {
+        match $t.usize(4) {
             0 => extra_ops!(@sqrt_ext $T, $name, $a, $out),
+            1 => extra_ops!(@inplace $T, $name, $a, $t, $rng, $out),
+            2 => {
+                let mut r = $a;
+                r.set_mul_small(word($t, $rng) as u32);
+                r
+            }
             _ => extra_ops!(@w64be7 $T, $name, $t, $rng, $out),
         }
     }};
     (gfgen7, $T:ty, $name:expr, $a:expr, $b:expr, $regs:expr, $t:expr, $rng:expr, $out:expr) => {{
-        match $t.usize(3) {
+        match $t.usize(5) {
             0 => extra_ops!(@sqrt_ext $T, $name, $a, $out),
             1 => $a.mul3(),
+            2 => extra_ops!(@inplace $T, $name, $a, $t, $rng, $out),
+            3 => {
+                let mut r = $a;
+                match $t.usize(4) {
+                    0 => r.set_half(),
+                    1 => r.set_invert(),
+                    2 => r.set_mul_small(word($t, $rng) as u32),
+                    _ => r.set_xsquare($t.usize(6) as u32),
+                }
+                r
+            }
             _ => extra_ops!(@w64be7 $T, $name, $t, $rng, $out),
         }
     }};
     (modint, $T:ty, $name:expr, $a:expr, $b:expr, $regs:expr, $t:expr, $rng:expr, $out:expr) => {{
-        match $t.usize(4) {
+        match $t.usize(6) {
             0 => $a.mul3(),
             1 => extra_ops!(@enc32 $T, $name, $a, $t, $rng, $out),
             2 => extra_ops!(@w64be4 $T, $name, $t, $rng, $out),
+            4 => extra_ops!(@inplace $T, $name, $a, $t, $rng, $out),
+            5 => {
+                let mut r = $a;
+                r.set_xsquare($t.usize(6) as u32);
+                r
+            }
             _ => {
                 let l = if $t.chance(3, 4) { 32 } else { len_biased($t, 32) };
                 let bb = bytes_biased($t, $rng, l);
@@ -391,17 +450,24 @@ macro_rules! extra_ops {
         }
     }};
     (field256, $T:ty, $name:expr, $a:expr, $b:expr, $regs:expr, $t:expr, $rng:expr, $out:expr) => {{
-        match $t.usize(3) {
+        match $t.usize(4) {
             0 => $a.mul3(),
             1 => extra_ops!(@enc32 $T, $name, $a, $t, $rng, $out),
+            2 => extra_ops!(@inplace $T, $name, $a, $t, $rng, $out),
             _ => extra_ops!(@w64be4 $T, $name, $t, $rng, $out),
         }
     }};
     (secp, $T:ty, $name:expr, $a:expr, $b:expr, $regs:expr, $t:expr, $rng:expr, $out:expr) => {{
-        match $t.usize(4) {
+        match $t.usize(6) {
             0 => $a.mul3(),
             1 => $a.mul21(),
             2 => extra_ops!(@enc32 $T, $name, $a, $t, $rng, $out),
+            3 => extra_ops!(@inplace $T, $name, $a, $t, $rng, $out),
+            4 => {
+                let mut r = $a;
+                r.set_mul21();
+                r
+            }
             _ => extra_ops!(@w64be4 $T, $name, $t, $rng, $out),
         }
     }};
